@@ -111,9 +111,44 @@ func runC11(c *core.Ctx) {
 	if orig.Size > 0 {
 		c.Count("obs:reload-nonempty", 1)
 	}
+	// what ToJSON returned must stay what it was: serialize other states
+	// (another container of the kind, the reloaded copies) and look again
+	jCopy := string(j)
+	if o := d.Fresh(); true {
+		o.build(c, r.Range(1, 10))
+		c.Begin(kind, "ToJSON", "another container of the same kind")
+		o.JSON.ToJSON()
+		for _, t := range reloaded {
+			t.JSON.ToJSON()
+		}
+	}
+	if string(j) != jCopy {
+		c.Fail("tojson", "result-overwritten-later", "%s: the bytes returned by ToJSON() were %s and became %s after later ToJSON() calls on other containers", kind, jCopy, j)
+	}
+	// continue all of them with the same calls; they must stay equivalent
+	realR := c.R
+	for s := 0; s < 8; s++ {
+		seed := realR.U64()
+		for _, t := range append([]*Dyn{d}, reloaded...) {
+			c.R = core.NewR(seed)
+			if s%2 == 0 {
+				t.Grow(c)
+			} else {
+				t.Mutate(c)
+			}
+		}
+		c.R = realR
+		for i, t := range reloaded {
+			if diff := equivalent(d, t, false); diff != "" {
+				c.Fail("reload", "diverges-later", "%s: after the same %d further calls the container reloaded via %s differs from the original: %s", kind, s+1, loaders[i].name, diff)
+			}
+		}
+	}
+	c.Count("obs:lockstep-continuation", 1)
 	// the same subsequent Pop/Dequeue sequence, drained in lockstep
 	if d.Take != nil {
-		for step := 0; step <= orig.Size; step++ {
+		n := d.C.Size()
+		for step := 0; step <= n; step++ {
 			v, ok := d.Take()
 			for i, t := range reloaded {
 				tv, tok := t.Take()
@@ -123,22 +158,6 @@ func runC11(c *core.Ctx) {
 			}
 		}
 		c.Count("obs:lockstep-drain", 1)
-	} else {
-		// continue all of them with the same calls; they must stay equivalent
-		realR := c.R
-		for s := 0; s < 6; s++ {
-			seed := realR.U64()
-			for _, t := range append([]*Dyn{d}, reloaded...) {
-				c.R = core.NewR(seed)
-				t.Mutate(c)
-			}
-			c.R = realR
-			for i, t := range reloaded {
-				if diff := equivalent(d, t, false); diff != "" {
-					c.Fail("reload", "diverges-later", "%s: after the same %d further calls the container reloaded via %s differs from the original: %s", kind, s+1, loaders[i].name, diff)
-				}
-			}
-		}
 	}
 	c.State(core.Mix(core.HashString(kind), core.HashString(string(j))))
 	c.Nontrivial()
